@@ -436,7 +436,7 @@ structure LiveOut (s : St) (R : LiveRes) (ptr m o nfv : Nat) (feat : Nat → Fea
 
 /-- the feature loop on top of `liveIn` -/
 theorem featLive_tail (win : Nat) (skip : Nat → Bool) (s : St) (ptr m : Nat) (b e : Bool) (o V : Nat) (idf : Nat → Nat)
-    (nb : Nat) (hspecial : (b && e && decide (m > 0)) = false) (hclamp : ¬ liveNbuf win s m b e + m > livebuf)
+    (nb : Nat) (hspecial : (b && e && decide (m > 0)) = false) (hclamp : ¬ liveNbuf win s m b e + m > livebuf - win)
     (hnb3 : (if b && decide (m > 0) then liveNbuf win s m b e - win else liveNbuf win s m b e) + m = nb)
     (hin : InOut win s (liveIn win skip s ptr m b e) ptr m V idf nb)
     (ho : o + (nb - win) ≤ s.featBuf.length) (hw : 2 * win + 1 ≤ livebuf) :
@@ -451,7 +451,7 @@ theorem featLive_tail (win : Nat) (skip : Nat → Bool) (s : St) (ptr m : Nat) (
     (by rw [hfb]; exact ho) hw
   have hR : R = (if nb ≤ win then ⟨liveIn win skip s ptr m b e, m, 0⟩
       else ⟨computeFeats win (nb - win) o (liveIn win skip s ptr m b e), m, nb - win⟩ : LiveRes) := by
-    have hcl : decide (liveNbuf win s m b e + m > livebuf) = false := by simp only [hclamp, decide_false]
+    have hcl : decide (liveNbuf win s m b e + m > livebuf - win) = false := by simp only [hclamp, decide_false]
     simp only [R, featLive, hspecial, hcl, hnb3, if_false, Bool.false_eq_true]
   rw [← hR] at t1 t2 t3
   refine ⟨⟨t1, t2, ?_, ?_, ?_, ?_, ?_, ?_, ?_, ?_⟩, ?_, ?_, ?_, ?_⟩
@@ -468,6 +468,55 @@ theorem featLive_tail (win : Nat) (skip : Nat → Bool) (s : St) (ptr m : Nat) (
   · rw [t3]
   · rw [t3]
   · rw [t3]
+
+/-- the same when the input is clamped to what fits next to the left-context window: `m'` frames are taken, the
+    end-of-utterance processing is cancelled -/
+theorem featLive_tail_clamp (win : Nat) (skip : Nat → Bool) (s : St) (ptr m m' : Nat) (b e : Bool) (o V : Nat) (idf : Nat → Nat)
+    (nb : Nat) (hspecial : (b && e && decide (m > 0)) = false) (hclamp : liveNbuf win s m b e + m > livebuf - win)
+    (hm' : m' = livebuf - liveNbuf win s m b e - win)
+    (hnb3 : (if b && decide (m' > 0) then liveNbuf win s m b e - win else liveNbuf win s m b e) + m' = nb)
+    (hin : InOut win s (liveIn win skip s ptr m' b false) ptr m' V idf nb)
+    (ho : o + (nb - win) ≤ s.featBuf.length) (hw : 2 * win + 1 ≤ livebuf) :
+    let R := featLive win skip s ptr m b e o
+    LiveOut s R ptr m' o (nb - win) (winOf win idf) ∧ R.st.cepbuf = (liveIn win skip s ptr m' b false).cepbuf ∧
+      R.st.bufpos = (liveIn win skip s ptr m' b false).bufpos ∧ R.st.curpos = (V + (nb - win) + win) % livebuf ∧
+      R.st.cmnMoved = (liveIn win skip s ptr m' b false).cmnMoved := by
+  intro R
+  obtain ⟨cb, bp, cp, mb, cf, cm, hfr⟩ := hin.frame
+  have hfb : (liveIn win skip s ptr m' b false).featBuf = s.featBuf := by rw [hfr]
+  obtain ⟨t1, t2, fb, t3, t4, t5, t6⟩ := live_tail win (liveIn win skip s ptr m' b false) V idf nb o m' hin.cepLen hin.cur hin.ring
+    (by rw [hfb]; exact ho) hw
+  have hR : R = (if nb ≤ win then ⟨liveIn win skip s ptr m' b false, m', 0⟩
+      else ⟨computeFeats win (nb - win) o (liveIn win skip s ptr m' b false), m', nb - win⟩ : LiveRes) := by
+    have hcl : decide (liveNbuf win s m b e + m > livebuf - win) = true := by simp only [hclamp, decide_true]
+    simp only [R, featLive, hspecial, hcl, if_true, if_false, Bool.false_eq_true, ← hm', hnb3]
+  rw [← hR] at t1 t2 t3
+  refine ⟨⟨t1, t2, ?_, ?_, ?_, ?_, ?_, ?_, ?_, ?_⟩, ?_, ?_, ?_, ?_⟩
+  · refine ⟨cb, bp, (V + (nb - win) + win) % livebuf, fb, mb, cf, cm, ?_⟩
+    rw [t3, hfr]
+  · rw [t3]; simp only []; rw [t4, hfb]
+  · intro t ht; rw [t3]; exact t5 t ht
+  · intro q hq; rw [t3]; simp only []; rw [t6 q hq, hfb]
+  · rw [t3]; exact hin.mbLen
+  · intro q hq; rw [t3]; exact hin.mbOld q hq
+  · rw [t3]; exact hin.cmnLo
+  · rw [t3]; exact hin.cmnHi
+  · rw [t3]
+  · rw [t3]
+  · rw [t3]
+  · rw [t3]
+
+/-- frames one call takes when `nb1` slots are accounted for already: all `m`, or what fits next to the left context -/
+def effN (win nb1 m : Nat) : Nat := if nb1 + m > livebuf - win then livebuf - nb1 - win else m
+
+theorem effN_le (win nb1 m : Nat) (h : nb1 + win ≤ livebuf) : effN win nb1 m ≤ m := by
+  unfold effN; split <;> omega
+
+theorem effN_pos (win nb1 m : Nat) (hm : 1 ≤ m) (h : nb1 + win + 1 ≤ livebuf) : 1 ≤ effN win nb1 m := by
+  unfold effN; split <;> omega
+
+theorem effN_fit (win nb1 m : Nat) (h : nb1 + win ≤ livebuf) : win + nb1 + effN win nb1 m ≤ livebuf := by
+  unfold effN; split <;> omega
 
 theorem nbuf_of_inv {win c V bufpos curpos : Nat} (hc : curpos = (V + win) % livebuf)
     (hb : bufpos = (V + win + min c win) % livebuf) (hw : 2 * win + 1 ≤ livebuf) :
@@ -494,7 +543,7 @@ theorem ring_copy {cb V idf cnt} (h : Ring cb V idf cnt) (hl : cb.length = liveb
 /-- a call in the PROCESSING state: `m ≥ 0` further frames -/
 theorem liveIn_mid (win : Nat) (skip : Nat → Bool) (s : St) (ptr m c : Nat) (hinv : LiveInv win s c)
     (hfr : MfcAt s.mfcBuf ptr m c) (hp : ptr + m ≤ s.mfcBuf.length) (hm : s.cmnMoved = false)
-    (hcmn : s.cmnFrames + m ≤ cmnWinHwm) (hfit : m + 2 * win + 1 ≤ livebuf) :
+    (hcmn : s.cmnFrames + m ≤ cmnWinHwm) (hfit : win + min c win + m ≤ livebuf) :
     ∃ V, InOut win s (liveIn win skip s ptr m false false) ptr m V (fun j => (c - win) + j - win) (min c win + m) ∧
       (liveIn win skip s ptr m false false).cmnMoved = false := by
   obtain ⟨hl, V, hc, hb, hr⟩ := hinv
@@ -524,30 +573,45 @@ theorem liveIn_mid (win : Nat) (skip : Nat → Bool) (s : St) (ptr m c : Nat) (h
 
 theorem featLive_mid (win : Nat) (skip : Nat → Bool) (s : St) (ptr m o c : Nat) (hinv : LiveInv win s c)
     (hfr : MfcAt s.mfcBuf ptr m c) (hp : ptr + m ≤ s.mfcBuf.length) (hm : s.cmnMoved = false)
-    (hcmn : s.cmnFrames + m ≤ cmnWinHwm) (hfit : m + 2 * win + 1 ≤ livebuf)
-    (ho : o + ((c + m - win) - (c - win)) ≤ s.featBuf.length) :
+    (hcmn : s.cmnFrames + m ≤ cmnWinHwm) (hw : 3 * win + 1 ≤ livebuf)
+    (ho : o + ((c + effN win (min c win) m - win) - (c - win)) ≤ s.featBuf.length) :
     let R := featLive win skip s ptr m false false o
-    LiveOut s R ptr m o ((c + m - win) - (c - win)) (fun t => canonL win (c - win + t)) ∧ LiveInv win R.st (c + m) ∧
-      R.st.cmnMoved = false := by
+    LiveOut s R ptr (effN win (min c win) m) o ((c + effN win (min c win) m - win) - (c - win))
+        (fun t => canonL win (c - win + t)) ∧
+      LiveInv win R.st (c + effN win (min c win) m) ∧ R.st.cmnMoved = false := by
   intro R
-  have hw : 2 * win + 1 ≤ livebuf := by omega
-  obtain ⟨V, hin, hmv⟩ := liveIn_mid win skip s ptr m c hinv hfr hp hm hcmn hfit
+  have hw2 : 2 * win + 1 ≤ livebuf := by omega
+  have hle := effN_le win (min c win) m (by omega)
+  have hfitE := effN_fit win (min c win) m (by omega)
+  generalize hmE : effN win (min c win) m = m' at *
+  obtain ⟨V, hin, hmv⟩ := liveIn_mid win skip s ptr m' c hinv (fun i hi => hfr i (by omega)) (by omega) hm (by omega) hfitE
   obtain ⟨_, V0, hc0, hb0, _⟩ := hinv
   have hnb : liveNbuf win s m false false = min c win := by
     simp only [liveNbuf, Bool.false_and, if_false, Bool.false_eq_true, Nat.add_zero]
-    exact nbuf_of_inv hc0 hb0 hw
-  have hnfv : min c win + m - win = (c + m - win) - (c - win) := by omega
-  obtain ⟨lo, h1, h2, h3, h4⟩ := featLive_tail win skip s ptr m false false o V _ (min c win + m) (by simp)
-    (by rw [hnb]; simp only [livebuf] at *; omega) (by simp [hnb]) hin (by rw [hnfv]; exact ho) hw
+    exact nbuf_of_inv hc0 hb0 hw2
+  have hnfv : min c win + m' - win = (c + m' - win) - (c - win) := by omega
+  have hres : LiveOut s R ptr m' o (min c win + m' - win) (winOf win fun j => (c - win) + j - win) ∧
+      R.st.cepbuf = (liveIn win skip s ptr m' false false).cepbuf ∧ R.st.bufpos = (liveIn win skip s ptr m' false false).bufpos ∧
+      R.st.curpos = (V + (min c win + m' - win) + win) % livebuf ∧
+      R.st.cmnMoved = (liveIn win skip s ptr m' false false).cmnMoved := by
+    by_cases hcl : min c win + m > livebuf - win
+    · have hm'e : m' = livebuf - min c win - win := by rw [← hmE]; unfold effN; rw [if_pos hcl]
+      exact featLive_tail_clamp win skip s ptr m m' false false o V _ (min c win + m') (by simp)
+        (by rw [hnb]; exact hcl) (by rw [hnb]; exact hm'e) (by simp [hnb]) hin (by rw [hnfv]; exact ho) hw2
+    · have hm'e : m' = m := by rw [← hmE]; unfold effN; rw [if_neg hcl]
+      subst hm'e
+      exact featLive_tail win skip s ptr m' false false o V _ (min c win + m') (by simp)
+        (by rw [hnb]; exact hcl) (by simp [hnb]) hin (by rw [hnfv]; exact ho) hw2
+  obtain ⟨lo, h1, h2, h3, h4⟩ := hres
   refine ⟨?_, ?_, by rw [h4]; exact hmv⟩
   · rw [hnfv] at lo
     refine { lo with fbNew := ?_ }
     intro t ht
     rw [lo.fbNew t ht, winOf_canonL]
-  · refine ⟨by rw [h1]; exact hin.cepLen, V + (min c win + m - win), h3, ?_, ?_⟩
+  · refine ⟨by rw [h1]; exact hin.cepLen, V + (min c win + m' - win), h3, ?_, ?_⟩
     · rw [h2, hin.buf]; simp only [livebuf]; omega
     · rw [h1]
-      have := (hin.ring.shift (min c win + m - win) (by omega))
+      have := (hin.ring.shift (min c win + m' - win) (by omega))
       refine (this.mono (by omega)).congr ?_
       intro j _
       omega
@@ -561,7 +625,7 @@ theorem featLive_begin0 (win : Nat) (skip : Nat → Bool) (s : St) (ptr o : Nat)
 theorem liveIn_begin (win : Nat) (skip : Nat → Bool) (s : St) (ptr m : Nat) (hl : s.cepbuf.length = livebuf)
     (hcur : s.curpos < livebuf) (hm1 : 1 ≤ m)
     (hfr : MfcAt s.mfcBuf ptr m 0) (hp : ptr + m ≤ s.mfcBuf.length) (hm : s.cmnMoved = false)
-    (hcmn : s.cmnFrames + m ≤ cmnWinHwm) (hfit : m + 2 * win + 1 ≤ livebuf) :
+    (hcmn : s.cmnFrames + m ≤ cmnWinHwm) (hfit : win + win + m ≤ livebuf) :
     InOut win s (liveIn win skip s ptr m true false) ptr m s.curpos (fun j => (0 - win) + j - win) m ∧
       (liveIn win skip s ptr m true false).cmnMoved = false := by
   obtain ⟨mb, cf, e1, hmbl, hmb1, hmb2, hcf1, hcf2⟩ := cmnLive_spec skip { s with bufpos := s.curpos } ptr m 0 hp hfr hm hcmn
@@ -609,26 +673,43 @@ theorem liveIn_begin (win : Nat) (skip : Nat → Bool) (s : St) (ptr m : Nat) (h
 theorem featLive_begin (win : Nat) (skip : Nat → Bool) (s : St) (ptr m o : Nat) (hl : s.cepbuf.length = livebuf)
     (hcur : s.curpos < livebuf) (hm1 : 1 ≤ m)
     (hfr : MfcAt s.mfcBuf ptr m 0) (hp : ptr + m ≤ s.mfcBuf.length) (hm : s.cmnMoved = false)
-    (hcmn : s.cmnFrames + m ≤ cmnWinHwm) (hfit : m + 2 * win + 1 ≤ livebuf)
-    (ho : o + (m - win) ≤ s.featBuf.length) :
+    (hcmn : s.cmnFrames + m ≤ cmnWinHwm) (hw3 : 3 * win + 1 ≤ livebuf)
+    (ho : o + (effN win win m - win) ≤ s.featBuf.length) :
     let R := featLive win skip s ptr m true false o
-    LiveOut s R ptr m o (m - win) (fun t => canonL win t) ∧ LiveInv win R.st m ∧ R.st.cmnMoved = false := by
+    LiveOut s R ptr (effN win win m) o (effN win win m - win) (fun t => canonL win t) ∧ LiveInv win R.st (effN win win m) ∧
+      R.st.cmnMoved = false ∧ 1 ≤ effN win win m := by
   intro R
   have hw : 2 * win + 1 ≤ livebuf := by omega
-  obtain ⟨hin, hmv⟩ := liveIn_begin win skip s ptr m hl hcur hm1 hfr hp hm hcmn hfit
+  have hle := effN_le win win m (by omega)
+  have hfitE := effN_fit win win m (by omega)
+  have hpos := effN_pos win win m hm1 (by omega)
+  generalize hmE : effN win win m = m' at *
+  obtain ⟨hin, hmv⟩ := liveIn_begin win skip s ptr m' hl hcur hpos (fun i hi => hfr i (by omega)) (by omega) hm (by omega) hfitE
   have hm0 : decide (m > 0) = true := by simp; omega
+  have hm0' : decide (m' > 0) = true := by simp; omega
   have hnb : liveNbuf win s m true false = win := by
     simp [liveNbuf, hm0]
-  obtain ⟨lo, h1, h2, h3, h4⟩ := featLive_tail win skip s ptr m true false o s.curpos _ m (by simp)
-    (by rw [hnb]; simp only [livebuf] at *; omega) (by simp [hnb, hm0]) hin ho hw
-  refine ⟨?_, ?_, by rw [h4]; exact hmv⟩
+  have hres : LiveOut s R ptr m' o (m' - win) (winOf win fun j => (0 - win) + j - win) ∧
+      R.st.cepbuf = (liveIn win skip s ptr m' true false).cepbuf ∧ R.st.bufpos = (liveIn win skip s ptr m' true false).bufpos ∧
+      R.st.curpos = (s.curpos + (m' - win) + win) % livebuf ∧
+      R.st.cmnMoved = (liveIn win skip s ptr m' true false).cmnMoved := by
+    by_cases hcl : win + m > livebuf - win
+    · have hm'e : m' = livebuf - win - win := by rw [← hmE]; unfold effN; rw [if_pos hcl]
+      exact featLive_tail_clamp win skip s ptr m m' true false o s.curpos _ m' (by simp)
+        (by rw [hnb]; exact hcl) (by rw [hnb]; exact hm'e) (by simp [hnb, hm0']) hin ho hw
+    · have hm'e : m' = m := by rw [← hmE]; unfold effN; rw [if_neg hcl]
+      subst hm'e
+      exact featLive_tail win skip s ptr m' true false o s.curpos _ m' (by simp)
+        (by rw [hnb]; exact hcl) (by simp [hnb, hm0]) hin ho hw
+  obtain ⟨lo, h1, h2, h3, h4⟩ := hres
+  refine ⟨?_, ?_, by rw [h4]; exact hmv, hpos⟩
   · refine { lo with fbNew := ?_ }
     intro t ht
     rw [lo.fbNew t ht, winOf_canonL, show 0 - win + t = t by omega]
-  · refine ⟨by rw [h1]; exact hin.cepLen, s.curpos + (m - win), h3, ?_, ?_⟩
+  · refine ⟨by rw [h1]; exact hin.cepLen, s.curpos + (m' - win), h3, ?_, ?_⟩
     · rw [h2, hin.buf]; simp only [livebuf]; omega
     · rw [h1]
-      have := (hin.ring.shift (m - win) (by omega))
+      have := (hin.ring.shift (m' - win) (by omega))
       refine (this.mono (by omega)).congr ?_
       intro j _
       omega
@@ -933,10 +1014,12 @@ theorem FCore.step {win c c' ptr m nfv} {s s' : St} {feat : Nat → Feat} {st' :
 theorem processCep_mid (win : Nat) (skip : Nat → Bool) (s : St) (ptr m c : Nat) (h : FCore win s c)
     (hlive : LiveInv win s c) (hst : s.state = .processing)
     (hfr : MfcAt s.mfcBuf ptr m c) (hp : ptr + m ≤ s.mfcBuf.length)
-    (hcmn : s.cmnFrames + m ≤ cmnWinHwm) (hfit : m + 2 * win + 1 ≤ livebuf) :
+    (hcmn : s.cmnFrames + m ≤ cmnWinHwm) (hw : 3 * win + 1 ≤ livebuf) :
     let r := processCep true win skip s ptr m
-    r.used = m ∧ FCore win r.st (c + m) ∧ LiveInv win r.st (c + m) ∧
-      CepOut s r.st ptr m ((c + m - win) - (c - win)) (fun t => canonL win (c - win + t)) .processing := by
+    r.used = effN win (min c win) m ∧ FCore win r.st (c + effN win (min c win) m) ∧
+      LiveInv win r.st (c + effN win (min c win) m) ∧
+      CepOut s r.st ptr (effN win (min c win) m) ((c + effN win (min c win) m - win) - (c - win))
+        (fun t => canonL win (c - win + t)) .processing := by
   intro r
   have hr : r = cepFinish true (featLive win skip (cepGrow s (cepNfeat win s m)) ptr m false false
       (s.featOutidx + s.nFeatFrame)) := by
@@ -953,27 +1036,30 @@ theorem processCep_mid (win : Nat) (skip : Nat → Bool) (s : St) (ptr m c : Nat
   have ho2 := h.cnt
   have ha : (cepGrow s m).nFeatAlloc = a0 := by rw [e0]
   rw [ha] at hroom
+  have hle := effN_le win (min c win) m (by omega)
   obtain ⟨lo, hli, hmv⟩ := featLive_mid win skip (cepGrow s m) ptr m (s.featOutidx + s.nFeatFrame) c
     (hlive.of_eq (by rw [e0]) (by rw [e0]) (by rw [e0])) (by rw [e0]; exact hfr) (by rw [e0]; exact hp)
-    (by rw [e0]; exact h.moved) (by rw [e0]; exact hcmn) hfit
+    (by rw [e0]; exact h.moved) (by rw [e0]; exact hcmn) hw
     (by rw [e0]; simp only []; omega)
-  obtain ⟨f1, f2, f3, f4, f5, f6⟩ := cepFinish_spec true s (cepGrow s m) _ ptr m _ _ ⟨fb0, a0, e0, hl0, hle0, hg0⟩ lo
+  generalize effN win (min c win) m = m' at *
+  obtain ⟨f1, f2, f3, f4, f5, f6⟩ := cepFinish_spec true s (cepGrow s m) _ ptr m' _ _ ⟨fb0, a0, e0, hl0, hle0, hg0⟩ lo
     (by rw [ha]; omega) (by have := h.fbLen; have := h.room; omega)
   rw [← hr] at f1 f2 f3 f4 f5 f6
-  have hst' : (if s.state = .started ∧ (!true || decide (m > 0)) then UState.processing else s.state) = .processing := by
+  have hst' : (if s.state = .started ∧ (!true || decide (m' > 0)) then UState.processing else s.state) = .processing := by
     simp [hst]
   rw [hst'] at f2
-  have hli' : LiveInv win r.st (c + m) := hli.of_eq f3 f5 f4
+  have hli' : LiveInv win r.st (c + m') := hli.of_eq f3 f5 f4
   exact ⟨f1, h.step f2 (by omega) (fun _ _ => rfl) hli'.1 hli'.cur (by rw [f6]; exact hmv), hli', f2⟩
 
 /-- first frames of the utterance: STARTED → PROCESSING with the start padding -/
 theorem processCep_start (win : Nat) (skip : Nat → Bool) (s : St) (ptr m : Nat) (h : FCore win s 0)
     (hst : s.state = .started) (hm1 : 1 ≤ m)
     (hfr : MfcAt s.mfcBuf ptr m 0) (hp : ptr + m ≤ s.mfcBuf.length)
-    (hcmn : s.cmnFrames + m ≤ cmnWinHwm) (hfit : m + 2 * win + 1 ≤ livebuf) :
+    (hcmn : s.cmnFrames + m ≤ cmnWinHwm) (hw : 3 * win + 1 ≤ livebuf) :
     let r := processCep true win skip s ptr m
-    r.used = m ∧ FCore win r.st m ∧ LiveInv win r.st m ∧
-      CepOut s r.st ptr m (m - win) (fun t => canonL win t) .processing := by
+    r.used = effN win win m ∧ FCore win r.st (effN win win m) ∧ LiveInv win r.st (effN win win m) ∧
+      CepOut s r.st ptr (effN win win m) (effN win win m - win) (fun t => canonL win t) .processing ∧
+      1 ≤ effN win win m := by
   intro r
   have ho1 := h.outIdx
   have ho2 := h.cnt
@@ -990,19 +1076,21 @@ theorem processCep_start (win : Nat) (skip : Nat → Bool) (s : St) (ptr m : Nat
   obtain ⟨fb0, a0, e0, hl0, hle0, hg0⟩ := hext
   have ha : (cepGrow s ((m : Int) - win)).nFeatAlloc = a0 := by rw [e0]
   rw [ha] at hroom
-  obtain ⟨lo, hli, hmv⟩ := featLive_begin win skip (cepGrow s ((m : Int) - win)) ptr m (s.featOutidx + s.nFeatFrame)
+  have hle := effN_le win win m (by omega)
+  obtain ⟨lo, hli, hmv, hpos⟩ := featLive_begin win skip (cepGrow s ((m : Int) - win)) ptr m (s.featOutidx + s.nFeatFrame)
     (by rw [e0]; exact h.cepLen) (by rw [e0]; exact h.cur) hm1 (by rw [e0]; exact hfr) (by rw [e0]; exact hp)
-    (by rw [e0]; exact h.moved) (by rw [e0]; exact hcmn) hfit
+    (by rw [e0]; exact h.moved) (by rw [e0]; exact hcmn) hw
     (by rw [e0]; simp only []; omega)
-  obtain ⟨f1, f2, f3, f4, f5, f6⟩ := cepFinish_spec true s (cepGrow s ((m : Int) - win)) _ ptr m _ _
+  generalize effN win win m = m' at *
+  obtain ⟨f1, f2, f3, f4, f5, f6⟩ := cepFinish_spec true s (cepGrow s ((m : Int) - win)) _ ptr m' _ _
     ⟨fb0, a0, e0, hl0, hle0, hg0⟩ lo (by rw [ha]; omega) (by have := h.fbLen; omega)
   rw [← hr] at f1 f2 f3 f4 f5 f6
-  have hst' : (if s.state = .started ∧ (!true || decide (m > 0)) then UState.processing else s.state) = .processing := by
-    have : m > 0 := by omega
+  have hst' : (if s.state = .started ∧ (!true || decide (m' > 0)) then UState.processing else s.state) = .processing := by
+    have : m' > 0 := by omega
     simp [hst, this]
   rw [hst'] at f2
-  have hli' : LiveInv win r.st m := hli.of_eq f3 f5 f4
-  refine ⟨f1, h.step f2 (by omega) (fun t _ => ?_) hli'.1 hli'.cur (by rw [f6]; exact hmv), hli', f2⟩
+  have hli' : LiveInv win r.st m' := hli.of_eq f3 f5 f4
+  refine ⟨f1, h.step f2 (by omega) (fun t _ => ?_) hli'.1 hli'.cur (by rw [f6]; exact hmv), hli', f2, hpos⟩
   rw [show 0 - win + t = t by omega]
 
 /-- a call that brings no frame while STARTED: nothing happens (with the D8 repair the state stays STARTED) -/
@@ -1241,14 +1329,20 @@ theorem alignPass_spec (s : St) (upto : Nat) (hq : QInv s) :
 
 /-! ## `acmod_process_mfcbuf` -/
 
-/-- the cepstrum ring: `nMfcFrame` fresh frames `c, c+1, …` starting at `mfcOutidx`; `nextId` counts them -/
+/-- position `i` behind `o` in a ring of `K` slots -/
+theorem ring_mod (o i K : Nat) (ho : o < K) (hi : i ≤ K) : (o + i) % K = if o + i < K then o + i else o + i - K := by
+  split
+  · rename_i h; exact Nat.mod_eq_of_lt h
+  · rename_i h
+    rw [Nat.mod_eq_sub_mod (by omega), Nat.mod_eq_of_lt (by omega)]
+
+/-- the cepstrum ring (any size): `nMfcFrame` fresh frames `c, c+1, …` starting at `mfcOutidx`; `nextId` counts them -/
 structure MfcInv (s : St) (c : Nat) : Prop where
-  len : s.mfcBuf.length = nMfc
-  alloc : s.nMfcAlloc = nMfc
-  out : s.mfcOutidx < nMfc
-  cnt : s.nMfcFrame ≤ nMfc
+  len : s.mfcBuf.length = s.nMfcAlloc
+  out : s.mfcOutidx < s.nMfcAlloc
+  cnt : s.nMfcFrame ≤ s.nMfcAlloc
   next : s.nextId = c + s.nMfcFrame
-  frames : ∀ i, i < s.nMfcFrame → s.mfcBuf.getD ((s.mfcOutidx + i) % nMfc) none = some ⟨c + i, 0, false⟩
+  frames : ∀ i, i < s.nMfcFrame → s.mfcBuf.getD ((s.mfcOutidx + i) % s.nMfcAlloc) none = some ⟨c + i, 0, false⟩
 
 /-- what a processing call keeps of the outer state -/
 structure Keep (s s' : St) (k : Nat) : Prop where
@@ -1283,9 +1377,9 @@ theorem CepOut.keep {s s' : St} {ptr m nfv feat st'} (h : CepOut s s' ptr m nfv 
 
 /-- bookkeeping of `acmod_process_mfcbuf` after a call that consumed `k` contiguous frames -/
 theorem MfcInv.consume {s s1 : St} {c k nfv : Nat} {feat : Nat → Feat} {st' : UState} (h : MfcInv s c)
-    (ho : CepOut s s1 s.mfcOutidx k nfv feat st') (hk : k ≤ s.nMfcFrame) (hfit : s.mfcOutidx + k ≤ nMfc) :
-    afterCep s1 k = { s1 with nMfcFrame := s.nMfcFrame - k, mfcOutidx := (s.mfcOutidx + k) % nMfc } ∧
-    MfcInv { s1 with nMfcFrame := s.nMfcFrame - k, mfcOutidx := (s.mfcOutidx + k) % nMfc } (c + k) := by
+    (ho : CepOut s s1 s.mfcOutidx k nfv feat st') (hk : k ≤ s.nMfcFrame) (hfit : s.mfcOutidx + k ≤ s.nMfcAlloc) :
+    afterCep s1 k = { s1 with nMfcFrame := s.nMfcFrame - k, mfcOutidx := (s.mfcOutidx + k) % s.nMfcAlloc } ∧
+    MfcInv { s1 with nMfcFrame := s.nMfcFrame - k, mfcOutidx := (s.mfcOutidx + k) % s.nMfcAlloc } (c + k) := by
   obtain ⟨cb, bp, cp, fb, a, mb, cf, cm, e⟩ := ho.frame
   have e1 : s1.nMfcFrame = s.nMfcFrame := by rw [e]
   have e2 : s1.mfcOutidx = s.mfcOutidx := by rw [e]
@@ -1293,19 +1387,20 @@ theorem MfcInv.consume {s s1 : St} {c k nfv : Nat} {feat : Nat → Feat} {st' : 
   have e4 : s1.nextId = s.nextId := by rw [e]
   have hn := h.next
   have hc := h.cnt
+  have hout := h.out
   constructor
   · unfold afterCep
-    rw [if_pos (by omega), e1, e2, e3, h.alloc]
-  · refine ⟨by simp only []; rw [ho.mbLen, h.len], by simp only []; rw [e3, h.alloc], Nat.mod_lt _ (by decide),
-      by simp only []; omega, by simp only []; omega, ?_⟩
+    rw [if_pos (by omega), e1, e2, e3]
+  · refine ⟨by simp only []; rw [ho.mbLen, h.len, e3], by simp only []; rw [e3]; exact Nat.mod_lt _ (by omega),
+      by simp only []; rw [e3]; omega, by simp only []; omega, ?_⟩
     intro i hi
     simp only [] at hi ⊢
-    have hpos : ((s.mfcOutidx + k) % nMfc + i) % nMfc = (s.mfcOutidx + (k + i)) % nMfc := by
-      simp only [nMfc]; omega
-    rw [hpos, ho.mbOld _ (by have := h.out; simp only [nMfc] at *; omega), h.frames (k + i) (by omega)]
+    rw [e3, Nat.mod_add_mod, Nat.add_assoc]
+    have hpos := ring_mod s.mfcOutidx (k + i) s.nMfcAlloc hout (by omega)
+    rw [ho.mbOld _ (by rw [hpos]; split <;> omega), h.frames (k + i) (by omega)]
     congr 2; omega
 
-theorem MfcInv.at {s : St} {c : Nat} (h : MfcInv s c) (k : Nat) (hk : k ≤ s.nMfcFrame) (hfit : s.mfcOutidx + k ≤ nMfc) :
+theorem MfcInv.at {s : St} {c : Nat} (h : MfcInv s c) (k : Nat) (hk : k ≤ s.nMfcFrame) (hfit : s.mfcOutidx + k ≤ s.nMfcAlloc) :
     MfcAt s.mfcBuf s.mfcOutidx k c := by
   intro i hi
   have := h.frames i (by omega)
@@ -1325,75 +1420,148 @@ structure PInv (win : Nat) (s : St) (c : Nat) : Prop where
   c1 : 1 ≤ c
   mfc : MfcInv s c
 
-/-- one `acmod_process_cep` call on `k` contiguous frames of the ring plus the bookkeeping after it -/
+/-- one `acmod_process_cep` call on `k` contiguous frames of the ring plus the bookkeeping after it: it consumes
+    `effN …` of them (all, unless the live buffer clamps) -/
 theorem consume_mid (win : Nat) (skip : Nat → Bool) (s : St) (c k : Nat) (h : PInv win s c) (hk : k ≤ s.nMfcFrame)
-    (hfit : s.mfcOutidx + k ≤ nMfc) (hcmn : s.cmnFrames + k ≤ cmnWinHwm) (hw : nMfc + 2 * win + 1 ≤ livebuf) :
+    (hfit : s.mfcOutidx + k ≤ s.nMfcAlloc) (hcmn : s.cmnFrames + k ≤ cmnWinHwm) (hw : 3 * win + 1 ≤ livebuf) :
     let r := processCep true win skip s s.mfcOutidx k
     let s' := afterCep r.st r.used
-    PInv win s' (c + k) ∧ s'.nMfcFrame = s.nMfcFrame - k ∧ s'.mfcOutidx = (s.mfcOutidx + k) % nMfc ∧ Keep s s' k := by
+    r.used = effN win (min c win) k ∧ PInv win s' (c + r.used) ∧ s'.nMfcFrame = s.nMfcFrame - r.used ∧
+      s'.mfcOutidx = (s.mfcOutidx + r.used) % s.nMfcAlloc ∧ Keep s s' r.used ∧ s'.nMfcAlloc = s.nMfcAlloc := by
   intro r s'
   have hm := h.mfc
   obtain ⟨f1, f2, f3, f4⟩ := processCep_mid win skip s s.mfcOutidx k c h.core h.live h.st (hm.at k hk hfit)
-    (by rw [hm.len]; exact hfit) hcmn (by have := hm.cnt; omega)
-  obtain ⟨g1, g2⟩ := hm.consume f4 hk hfit
-  have hs' : s' = { r.st with nMfcFrame := s.nMfcFrame - k, mfcOutidx := (s.mfcOutidx + k) % nMfc } := by
-    simp only [s']; rw [f1]; exact g1
+    (by rw [hm.len]; exact hfit) hcmn hw
+  have hle := effN_le win (min c win) k (by omega)
+  have f1' : r.used = effN win (min c win) k := f1
+  have hs'0 : s' = afterCep r.st (effN win (min c win) k) := by simp only [s']; rw [f1']
+  rw [f1', hs'0]
+  generalize effN win (min c win) k = k' at *
+  obtain ⟨g1, g2⟩ := hm.consume f4 (by omega) (by omega)
   obtain ⟨cb, bp, cp, fb, a, mb, cf, cm, e⟩ := f4.frame
-  rw [hs']
-  refine ⟨⟨f2.setMfc _ _, f3.of_eq rfl rfl rfl, ?_, by have := h.c1; omega, g2⟩, rfl, rfl, f4.keep.setMfc _ _⟩
-  simp only []; rw [e]
+  rw [g1]
+  refine ⟨rfl, ⟨f2.setMfc _ _, f3.of_eq rfl rfl rfl, ?_, by have := h.c1; omega, g2⟩, rfl, rfl, f4.keep.setMfc _ _, ?_⟩
+  · simp only []; exact (by rw [e] : (processCep true win skip s s.mfcOutidx k).st.state = .processing)
+  · simp only []; exact (by rw [e] : (processCep true win skip s s.mfcOutidx k).st.nMfcAlloc = s.nMfcAlloc)
 
 theorem St.setState_self (x : St) (st : UState) (h : x.state = st) : { x with state := st } = x := by
   cases x; simp_all
 
-/-- `acmod_process_mfcbuf` in the PROCESSING state: every frame of the ring is consumed, in one call or,
-    when they wrap around the end of `mfc_buf`, in two -/
-theorem processMfcbuf_mid (win : Nat) (skip : Nat → Bool) (s : St) (c : Nat) (h : PInv win s c)
-    (hcmn : s.cmnFrames + s.nMfcFrame ≤ cmnWinHwm) (hw : nMfc + 2 * win + 1 ≤ livebuf) :
-    let r := processMfcbuf true win skip s
-    PInv win r.st (c + s.nMfcFrame) ∧ r.st.nMfcFrame = 0 ∧ Keep s r.st s.nMfcFrame := by
+/-- one pass of `acmod_process_mfcbuf` in the PROCESSING state: some `t` of the queued frames are consumed — at least
+    one if any is queued — in one call or, when they wrap around the end of `mfc_buf`, in two -/
+theorem processMfcbufOnce_mid (win : Nat) (skip : Nat → Bool) (s : St) (c : Nat) (h : PInv win s c)
+    (hcmn : s.cmnFrames + s.nMfcFrame ≤ cmnWinHwm) (hw : 3 * win + 1 ≤ livebuf) :
+    let r := processMfcbufOnce true win skip s
+    ∃ t, PInv win r.st (c + t) ∧ r.st.nMfcFrame = s.nMfcFrame - t ∧ t ≤ s.nMfcFrame ∧
+      (1 ≤ s.nMfcFrame → 1 ≤ t ∧ 1 ≤ r.used) ∧ Keep s r.st t ∧ r.st.nMfcAlloc = s.nMfcAlloc := by
   intro r
   have hm := h.mfc
-  have hal := hm.alloc
   have hcnt := hm.cnt
   have hout := hm.out
+  have hc1 := h.c1
   by_cases hwrap : s.mfcOutidx + s.nMfcFrame > s.nMfcAlloc
-  · -- two parts
-    rw [hal] at hwrap
-    obtain ⟨p1, p2, p3, p4⟩ := consume_mid win skip s c (nMfc - s.mfcOutidx) h (by omega) (by omega) (by omega) hw
-    have hu1 : (processCep true win skip s s.mfcOutidx (nMfc - s.mfcOutidx)).used = nMfc - s.mfcOutidx :=
-      (processCep_mid win skip s s.mfcOutidx (nMfc - s.mfcOutidx) c h.core h.live h.st
-        (hm.at _ (by omega) (by omega)) (by rw [hm.len]; omega) (by omega) (by omega)).1
-    -- the state handed to the second call
-    generalize hs1def : afterCep (processCep true win skip s s.mfcOutidx (nMfc - s.mfcOutidx)).st
-      (processCep true win skip s s.mfcOutidx (nMfc - s.mfcOutidx)).used = s1 at p1 p2 p3 p4
+  · -- the part up to the end of the buffer first
+    obtain ⟨p0, p1, p2, p3, p4, p5⟩ := consume_mid win skip s c (s.nMfcAlloc - s.mfcOutidx) h (by omega) (by omega) (by omega) hw
+    have hpos1 := effN_pos win (min c win) (s.nMfcAlloc - s.mfcOutidx) (by omega) (by omega)
+    have hle1 := effN_le win (min c win) (s.nMfcAlloc - s.mfcOutidx) (by omega)
+    rw [← p0] at hpos1 hle1
+    generalize hu1 : (processCep true win skip s s.mfcOutidx (s.nMfcAlloc - s.mfcOutidx)).used = u1 at *
+    generalize hs1def : afterCep (processCep true win skip s s.mfcOutidx (s.nMfcAlloc - s.mfcOutidx)).st u1 = s1 at p1 p2 p3 p4 p5
     have hs1 : ({ s1 with state := s.state } : St) = s1 := St.setState_self _ _ (by rw [h.st]; exact p1.st)
-    have ho1 : s1.mfcOutidx = 0 := by
-      rw [p3]; simp only [nMfc] at *; omega
-    have hn1 : s1.nMfcFrame = s.nMfcFrame - (nMfc - s.mfcOutidx) := p2
-    have hk1 := p4.cmnHi
-    obtain ⟨q1, q2, q3, q4⟩ := consume_mid win skip s1 (c + (nMfc - s.mfcOutidx)) s1.nMfcFrame p1 (Nat.le_refl _)
-      (by rw [ho1]; have := p1.mfc.cnt; omega) (by omega) hw
-    have hr : r = ⟨afterCep (processCep true win skip s1 s1.mfcOutidx s1.nMfcFrame).st
-        (processCep true win skip s1 s1.mfcOutidx s1.nMfcFrame).used,
-        (processCep true win skip s1 s1.mfcOutidx s1.nMfcFrame).used⟩ := by
-      simp only [r, processMfcbuf, hal, hwrap, if_true, h.st, (by decide : ¬ UState.processing = UState.ended), if_false]
-      rw [hu1] at hs1def
-      rw [hu1, hs1def, ← h.st, hs1, hn1]
-    rw [hr]
-    simp only []
-    refine ⟨?_, by rw [q2]; omega, ?_⟩
-    · rw [show c + s.nMfcFrame = c + (nMfc - s.mfcOutidx) + s1.nMfcFrame by omega]; exact q1
-    · exact (p4.trans q4).mono (by omega)
-  · rw [hal] at hwrap
-    obtain ⟨p1, p2, p3, p4⟩ := consume_mid win skip s c s.nMfcFrame h (Nat.le_refl _) (by omega) hcmn hw
+    by_cases hpart : u1 < s.nMfcAlloc - s.mfcOutidx
+    · -- not consumed completely: come back for the rest
+      have hr : r = ⟨s1, u1⟩ := by
+        simp only [r, processMfcbufOnce, hwrap, if_true, h.st, (by decide : ¬ UState.processing = UState.ended), if_false]
+        rw [hu1, hs1def, if_pos hpart, ← h.st, hs1]
+      rw [hr]
+      exact ⟨u1, p1, p2, by omega, fun _ => ⟨hpos1, hpos1⟩, p4, p5⟩
+    · have hu1e : u1 = s.nMfcAlloc - s.mfcOutidx := by omega
+      have ho1 : s1.mfcOutidx = 0 := by
+        rw [p3, hu1e, show s.mfcOutidx + (s.nMfcAlloc - s.mfcOutidx) = s.nMfcAlloc by omega, Nat.mod_self]
+      have hk1 := p4.cmnHi
+      obtain ⟨q0, q1, q2, q3, q4, q5⟩ := consume_mid win skip s1 (c + u1) s1.nMfcFrame p1 (Nat.le_refl _)
+        (by rw [ho1, p5]; omega) (by omega) hw
+      have hpos2 := effN_pos win (min (c + u1) win) s1.nMfcFrame (by omega) (by omega)
+      have hle2 := effN_le win (min (c + u1) win) s1.nMfcFrame (by omega)
+      rw [← q0] at hpos2 hle2
+      have hr : r = ⟨afterCep (processCep true win skip s1 s1.mfcOutidx s1.nMfcFrame).st
+          (processCep true win skip s1 s1.mfcOutidx s1.nMfcFrame).used,
+          (processCep true win skip s1 s1.mfcOutidx s1.nMfcFrame).used⟩ := by
+        simp only [r, processMfcbufOnce, hwrap, if_true, h.st, (by decide : ¬ UState.processing = UState.ended), if_false]
+        rw [hu1, hs1def, if_neg hpart, ← h.st, hs1, p2]
+      rw [hr]
+      simp only []
+      generalize (processCep true win skip s1 s1.mfcOutidx s1.nMfcFrame).used = u2 at *
+      refine ⟨u1 + u2, ?_, by rw [q2, p2]; omega, by omega, fun _ => ⟨by omega, hpos2⟩, p4.trans q4, by rw [q5, p5]⟩
+      rw [← Nat.add_assoc]; exact q1
+  · obtain ⟨p0, p1, p2, p3, p4, p5⟩ := consume_mid win skip s c s.nMfcFrame h (Nat.le_refl _) (by omega) hcmn hw
+    have hle1 := effN_le win (min c win) s.nMfcFrame (by omega)
+    rw [← p0] at hle1
     have hr : r = ⟨afterCep (processCep true win skip s s.mfcOutidx s.nMfcFrame).st
         (processCep true win skip s s.mfcOutidx s.nMfcFrame).used,
         (processCep true win skip s s.mfcOutidx s.nMfcFrame).used⟩ := by
-      simp only [r, processMfcbuf, hal, hwrap, if_false]
+      simp only [r, processMfcbufOnce, hwrap, if_false]
     rw [hr]
     simp only []
-    exact ⟨p1, by rw [p2]; omega, p4⟩
+    refine ⟨_, p1, p2, hle1, fun hn => ?_, p4, p5⟩
+    have hpos1 := effN_pos win (min c win) s.nMfcFrame hn (by omega)
+    rw [← p0] at hpos1
+    exact ⟨hpos1, hpos1⟩
+
+/-- the drain loop in the PROCESSING state empties the ring -/
+theorem drain_mid (win : Nat) (skip : Nat → Bool) (hw : 3 * win + 1 ≤ livebuf) :
+    ∀ (fuel : Nat) (s : St) (c ncep total : Nat), PInv win s c → s.nMfcFrame + 1 ≤ fuel → (1 ≤ ncep ∨ s.nMfcFrame = 0) →
+    s.cmnFrames + s.nMfcFrame ≤ cmnWinHwm →
+    PInv win (drainMfc true win skip fuel s ncep total).st (c + s.nMfcFrame) ∧
+      (drainMfc true win skip fuel s ncep total).st.nMfcFrame = 0 ∧
+      Keep s (drainMfc true win skip fuel s ncep total).st s.nMfcFrame := by
+  intro fuel
+  induction fuel with
+  | zero => intro s c ncep total _ hf _ _; omega
+  | succ fuel ih =>
+    intro s c ncep total h hf hn hcmn
+    by_cases hgo : ncep > 0 ∧ s.nMfcFrame > 0 ∧ s.growFeat = true
+    · obtain ⟨t, p1, p2, p3, p4, p5, _⟩ := processMfcbufOnce_mid win skip s c h hcmn hw
+      obtain ⟨ht1, hu1⟩ := p4 (by omega)
+      simp only [drainMfc, hgo, and_self, if_true]
+      have hk := p5.cmnHi
+      obtain ⟨i1, i2, i3⟩ := ih _ (c + t) (processMfcbufOnce true win skip s).used
+        (if (processMfcbufOnce true win skip s).used > 0 then total + (processMfcbufOnce true win skip s).used else total)
+        p1 (by rw [p2]; omega) (Or.inl hu1) (by rw [p2]; omega)
+      rw [p2] at i1 i3
+      refine ⟨?_, i2, ?_⟩
+      · rw [show c + s.nMfcFrame = c + t + (s.nMfcFrame - t) by omega]; exact i1
+      · exact (p5.trans i3).mono (by omega)
+    · have hn0 : s.nMfcFrame = 0 := by
+        have hg := h.core.grow
+        rcases hn with hn | hn
+        · by_cases h0 : s.nMfcFrame = 0
+          · exact h0
+          · exact absurd ⟨by omega, by omega, hg⟩ hgo
+        · exact hn
+      simp only [drainMfc, hgo, if_false]
+      exact ⟨by rw [hn0, Nat.add_zero]; exact h, hn0, by rw [hn0]; exact Keep.refl s⟩
+
+/-- `acmod_process_mfcbuf` in the PROCESSING state: every queued frame is consumed, whatever the size of the ring -/
+theorem processMfcbuf_mid (win : Nat) (skip : Nat → Bool) (s : St) (c : Nat) (h : PInv win s c)
+    (hcmn : s.cmnFrames + s.nMfcFrame ≤ cmnWinHwm) (hw : 3 * win + 1 ≤ livebuf) :
+    let r := processMfcbuf true win skip s
+    PInv win r.st (c + s.nMfcFrame) ∧ r.st.nMfcFrame = 0 ∧ Keep s r.st s.nMfcFrame := by
+  intro r
+  obtain ⟨t, p1, p2, p3, p4, p5, _⟩ := processMfcbufOnce_mid win skip s c h hcmn hw
+  have hk := p5.cmnHi
+  have hn : 1 ≤ (processMfcbufOnce true win skip s).used ∨ (processMfcbufOnce true win skip s).st.nMfcFrame = 0 := by
+    by_cases h0 : s.nMfcFrame = 0
+    · right; rw [p2, h0]; omega
+    · left; exact (p4 (by omega)).2
+  obtain ⟨i1, i2, i3⟩ := drain_mid win skip hw ((processMfcbufOnce true win skip s).st.nMfcFrame + 1) _ (c + t)
+    (processMfcbufOnce true win skip s).used (processMfcbufOnce true win skip s).used p1 (Nat.le_refl _) hn (by rw [p2]; omega)
+  have hr : r = drainMfc true win skip ((processMfcbufOnce true win skip s).st.nMfcFrame + 1) (processMfcbufOnce true win skip s).st
+      (processMfcbufOnce true win skip s).used (processMfcbufOnce true win skip s).used := rfl
+  rw [hr]
+  refine ⟨?_, i2, ?_⟩
+  · rw [show c + s.nMfcFrame = c + t + (processMfcbufOnce true win skip s).st.nMfcFrame by rw [p2]; omega]; exact i1
+  · exact (p5.trans i3).mono (by rw [p2]; omega)
 
 /-- the invariant while the utterance is still in the STARTED state: no frame consumed so far -/
 structure SInv (win : Nat) (s : St) : Prop where
@@ -1402,29 +1570,52 @@ structure SInv (win : Nat) (s : St) : Prop where
   mfc : MfcInv s 0
   out0 : s.mfcOutidx = 0
 
-theorem processMfcbuf_single (fix : Bool) (win : Nat) (skip : Nat → Bool) (s : St) (h : ¬ s.mfcOutidx + s.nMfcFrame > s.nMfcAlloc) :
-    processMfcbuf fix win skip s = ⟨afterCep (processCep fix win skip s s.mfcOutidx s.nMfcFrame).st
+theorem processMfcbufOnce_single (fix : Bool) (win : Nat) (skip : Nat → Bool) (s : St) (h : ¬ s.mfcOutidx + s.nMfcFrame > s.nMfcAlloc) :
+    processMfcbufOnce fix win skip s = ⟨afterCep (processCep fix win skip s s.mfcOutidx s.nMfcFrame).st
       (processCep fix win skip s s.mfcOutidx s.nMfcFrame).used, (processCep fix win skip s s.mfcOutidx s.nMfcFrame).used⟩ := by
-  simp only [processMfcbuf, h, if_false]
+  simp only [processMfcbufOnce, h, if_false]
+
+/-- with an empty ring after the pass the drain loop of the D62 repair does nothing more -/
+theorem processMfcbuf_eq_once (fix : Bool) (win : Nat) (skip : Nat → Bool) (s : St)
+    (h : (processMfcbufOnce fix win skip s).st.nMfcFrame = 0) :
+    processMfcbuf fix win skip s = processMfcbufOnce fix win skip s := by
+  unfold processMfcbuf
+  simp only [h, drainMfc, Nat.lt_irrefl, false_and, and_false, if_false]
 
 /-- STARTED with at least one frame in the ring: they become the start of the utterance -/
 theorem processMfcbuf_start (win : Nat) (skip : Nat → Bool) (s : St) (h : SInv win s) (hn : 1 ≤ s.nMfcFrame)
-    (hcmn : s.cmnFrames + s.nMfcFrame ≤ cmnWinHwm) (hw : nMfc + 2 * win + 1 ≤ livebuf) :
+    (hcmn : s.cmnFrames + s.nMfcFrame ≤ cmnWinHwm) (hw : 3 * win + 1 ≤ livebuf) :
     let r := processMfcbuf true win skip s
     PInv win r.st s.nMfcFrame ∧ r.st.nMfcFrame = 0 ∧ Keep s r.st s.nMfcFrame := by
   intro r
   have hm := h.mfc
   have hcnt := hm.cnt
-  have hr : r = _ := processMfcbuf_single true win skip s (by rw [hm.alloc, h.out0]; omega)
-  obtain ⟨f1, f2, f3, f4⟩ := processCep_start win skip s s.mfcOutidx s.nMfcFrame h.core h.st hn
-    (hm.at _ (Nat.le_refl _) (by rw [h.out0]; omega)) (by rw [hm.len, h.out0]; omega) hcmn (by omega)
-  obtain ⟨g1, g2⟩ := hm.consume f4 (Nat.le_refl _) (by rw [h.out0]; omega)
+  have hone : processMfcbufOnce true win skip s = _ := processMfcbufOnce_single true win skip s (by rw [h.out0]; omega)
+  obtain ⟨f1, f2, f3, f4, hpos⟩ := processCep_start win skip s s.mfcOutidx s.nMfcFrame h.core h.st hn
+    (hm.at _ (Nat.le_refl _) (by rw [h.out0]; omega)) (by rw [hm.len, h.out0]; omega) hcmn hw
+  have hle := effN_le win win s.nMfcFrame (by omega)
+  generalize hkE : effN win win s.nMfcFrame = k' at *
+  obtain ⟨g1, g2⟩ := hm.consume f4 (by omega) (by rw [h.out0]; omega)
   obtain ⟨cb, bp, cp, fb, a, mb, cf, cm, e⟩ := f4.frame
+  have hst1 : (processCep true win skip s s.mfcOutidx s.nMfcFrame).st.state = .processing := by rw [e]
+  have hP : PInv win (processMfcbufOnce true win skip s).st (0 + k') := by
+    rw [hone]; simp only []; rw [f1, g1, Nat.zero_add]
+    exact ⟨f2.setMfc _ _, f3.of_eq rfl rfl rfl, hst1, hpos, by simpa using g2⟩
+  have hN : (processMfcbufOnce true win skip s).st.nMfcFrame = s.nMfcFrame - k' := by
+    rw [hone]; simp only []; rw [f1, g1]
+  have hU : (processMfcbufOnce true win skip s).used = k' := by rw [hone]; exact f1
+  have hK : Keep s (processMfcbufOnce true win skip s).st k' := by
+    rw [hone]; simp only []; rw [f1, g1]; exact f4.keep.setMfc _ _
+  have hk := hK.cmnHi
+  obtain ⟨i1, i2, i3⟩ := drain_mid win skip hw ((processMfcbufOnce true win skip s).st.nMfcFrame + 1) _ (0 + k')
+    (processMfcbufOnce true win skip s).used (processMfcbufOnce true win skip s).used hP (Nat.le_refl _)
+    (Or.inl (by rw [hU]; exact hpos)) (by rw [hN]; omega)
+  have hr : r = drainMfc true win skip ((processMfcbufOnce true win skip s).st.nMfcFrame + 1) (processMfcbufOnce true win skip s).st
+      (processMfcbufOnce true win skip s).used (processMfcbufOnce true win skip s).used := rfl
   rw [hr]
-  simp only []
-  rw [f1, g1]
-  refine ⟨⟨f2.setMfc _ _, f3.of_eq rfl rfl rfl, by simp only []; rw [e], hn, ?_⟩, by simp, f4.keep.setMfc _ _⟩
-  simpa using g2
+  refine ⟨?_, i2, ?_⟩
+  · rw [show s.nMfcFrame = 0 + k' + (processMfcbufOnce true win skip s).st.nMfcFrame by rw [hN]; omega]; exact i1
+  · exact (hK.trans i3).mono (by rw [hN]; omega)
 
 /-- STARTED with an empty ring (a call that yielded no frame): the utterance is still at its start -/
 theorem processMfcbuf_start0 (win : Nat) (skip : Nat → Bool) (s : St) (h : SInv win s) (hn : s.nMfcFrame = 0) :
@@ -1432,38 +1623,47 @@ theorem processMfcbuf_start0 (win : Nat) (skip : Nat → Bool) (s : St) (h : SIn
     SInv win r.st ∧ r.st.nMfcFrame = 0 ∧ Keep s r.st 0 := by
   intro r
   have hm := h.mfc
-  have hr : r = _ := processMfcbuf_single true win skip s (by rw [hm.alloc, h.out0, hn]; omega)
-  rw [hn] at hr
+  have hone : processMfcbufOnce true win skip s = _ := processMfcbufOnce_single true win skip s (by rw [h.out0, hn]; omega)
+  rw [hn] at hone
   obtain ⟨f1, f2, f4⟩ := processCep_start0 win skip s s.mfcOutidx h.core h.st
-  have hm0 : MfcInv s 0 := hm
   obtain ⟨g1, g2⟩ := hm.consume f4 (by omega) (by rw [h.out0]; omega)
   obtain ⟨cb, bp, cp, fb, a, mb, cf, cm, e⟩ := f4.frame
-  rw [hr]
-  simp only []
-  rw [f1, g1]
-  have hmod : (s.mfcOutidx + 0) % nMfc = 0 := by rw [h.out0]; rfl
-  refine ⟨⟨f2.setMfc _ _, by simp only []; rw [e], by simpa using g2, hmod⟩, by simp [hn], f4.keep.setMfc _ _⟩
+  have hA : (processCep true win skip s s.mfcOutidx 0).st.nMfcAlloc = s.nMfcAlloc := by rw [e]
+  have hmod : (s.mfcOutidx + 0) % s.nMfcAlloc = 0 := by rw [h.out0]; exact Nat.zero_mod _
+  have hres : SInv win (processMfcbufOnce true win skip s).st ∧ (processMfcbufOnce true win skip s).st.nMfcFrame = 0 ∧
+      Keep s (processMfcbufOnce true win skip s).st 0 := by
+    rw [hone]
+    simp only []
+    rw [f1, g1]
+    exact ⟨⟨f2.setMfc _ _, by simp only []; rw [e], by simpa using g2, hmod⟩, by simp [hn], f4.keep.setMfc _ _⟩
+  have : r = processMfcbufOnce true win skip s := processMfcbuf_eq_once true win skip s hres.2.1
+  rw [this]; exact hres
 
 /-- ENDED: the (at most one, never wrapping) last frames and the end padding -/
 theorem processMfcbuf_end (win : Nat) (skip : Nat → Bool) (s : St) (c : Nat) (hc : FCore win s c) (hl : LiveInv win s c)
-    (hc1 : 1 ≤ c) (hst : s.state = .ended) (hm : MfcInv s c) (hfit : s.mfcOutidx + s.nMfcFrame ≤ nMfc)
-    (hcmn : s.cmnFrames + s.nMfcFrame ≤ cmnWinHwm) (hw : nMfc + 3 * win + 1 ≤ livebuf) :
+    (hc1 : 1 ≤ c) (hst : s.state = .ended) (hm : MfcInv s c) (hfit : s.mfcOutidx + s.nMfcFrame ≤ s.nMfcAlloc)
+    (hcmn : s.cmnFrames + s.nMfcFrame ≤ cmnWinHwm) (hw : s.nMfcFrame + 3 * win + 1 ≤ livebuf) :
     let r := processMfcbuf true win skip s
     EndCore win r.st (c + s.nMfcFrame) ∧ r.st.nMfcFrame = 0 ∧ Keep s r.st s.nMfcFrame ∧ r.st.state = .ended ∧
       r.st.nextId = c + s.nMfcFrame := by
   intro r
   have hcnt := hm.cnt
-  have hr : r = _ := processMfcbuf_single true win skip s (by rw [hm.alloc]; omega)
+  have hone : processMfcbufOnce true win skip s = _ := processMfcbufOnce_single true win skip s (by omega)
   obtain ⟨f1, f2, f4⟩ := processCep_end win skip s s.mfcOutidx s.nMfcFrame c hc hl hc1 hst
-    (hm.at _ (Nat.le_refl _) hfit) (by rw [hm.len]; exact hfit) hcmn (by omega)
+    (hm.at _ (Nat.le_refl _) hfit) (by rw [hm.len]; exact hfit) hcmn hw
   obtain ⟨g1, g2⟩ := hm.consume f4 (Nat.le_refl _) hfit
   obtain ⟨cb, bp, cp, fb, a, mb, cf, cm, e⟩ := f4.frame
-  rw [hr]
-  simp only []
-  rw [f1, g1]
-  refine ⟨⟨f2.nofault, f2.grow, f2.fbLen, f2.outIdx, f2.cnt, f2.room, f2.feats⟩, by simp, f4.keep.setMfc _ _,
-    by simp only []; rw [e], ?_⟩
-  simp only []; rw [e]; exact hm.next
+  have hres : EndCore win (processMfcbufOnce true win skip s).st (c + s.nMfcFrame) ∧
+      (processMfcbufOnce true win skip s).st.nMfcFrame = 0 ∧ Keep s (processMfcbufOnce true win skip s).st s.nMfcFrame ∧
+      (processMfcbufOnce true win skip s).st.state = .ended ∧ (processMfcbufOnce true win skip s).st.nextId = c + s.nMfcFrame := by
+    rw [hone]
+    simp only []
+    rw [f1, g1]
+    refine ⟨⟨f2.nofault, f2.grow, f2.fbLen, f2.outIdx, f2.cnt, f2.room, f2.feats⟩, by simp, f4.keep.setMfc _ _,
+      by simp only []; rw [e], ?_⟩
+    simp only []; rw [e]; exact hm.next
+  have : r = processMfcbufOnce true win skip s := processMfcbuf_eq_once true win skip s hres.2.1
+  rw [this]; exact hres
 
 /-! ## the front end filling the cepstrum ring (`acmod_process_raw`) -/
 
@@ -1480,36 +1680,41 @@ theorem popResp_length (rs : List FeResp) : (popResp rs).2.length ≤ rs.length 
   | nil => simp [popResp]
   | cons r rs => simp [popResp]
 
-/-- one front-end call writing `k` frames at `inptr = (mfcOutidx + nMfcFrame) % nMfc`, not across the end -/
-theorem MfcInv.feWrite {s : St} {c : Nat} (h : MfcInv s c) (k inptr : Nat) (hin : inptr = (s.mfcOutidx + s.nMfcFrame) % nMfc)
-    (hk : inptr + k ≤ nMfc) (hroom : s.nMfcFrame + k ≤ nMfc) :
+/-- one front-end call writing `k` frames at `inptr = (mfcOutidx + nMfcFrame) % n_mfc_alloc`, not across the end -/
+theorem MfcInv.feWrite {s : St} {c : Nat} (h : MfcInv s c) (k inptr : Nat)
+    (hin : inptr = (s.mfcOutidx + s.nMfcFrame) % s.nMfcAlloc) (hk : inptr + k ≤ s.nMfcAlloc) (hroom : s.nMfcFrame + k ≤ s.nMfcAlloc) :
     ∃ mb, { feWrite k inptr s with nMfcFrame := (feWrite k inptr s).nMfcFrame + k } =
         { s with mfcBuf := mb, nextId := s.nextId + k, nMfcFrame := s.nMfcFrame + k } ∧
       MfcInv { s with mfcBuf := mb, nextId := s.nextId + k, nMfcFrame := s.nMfcFrame + k } c := by
   obtain ⟨mb, e, hl, h1, h2⟩ := feWrite_spec k inptr s (by rw [h.len]; exact hk)
-  refine ⟨mb, by rw [e], ⟨by simp only []; rw [hl, h.len], h.alloc, h.out, hroom, by simp only []; have := h.next; omega, ?_⟩⟩
+  refine ⟨mb, by rw [e], ⟨by simp only []; rw [hl, h.len], h.out, hroom, by simp only []; have := h.next; omega, ?_⟩⟩
   intro i hi
   simp only [] at hi ⊢
   have ho := h.out
+  have hc := h.cnt
+  have hpi := ring_mod s.mfcOutidx i s.nMfcAlloc ho (by omega)
+  have hpa := ring_mod s.mfcOutidx s.nMfcFrame s.nMfcAlloc ho hc
+  have hin' : inptr = if s.mfcOutidx + s.nMfcFrame < s.nMfcAlloc then s.mfcOutidx + s.nMfcFrame
+      else s.mfcOutidx + s.nMfcFrame - s.nMfcAlloc := by rw [hin, hpa]
   by_cases hia : i < s.nMfcFrame
-  · rw [h2 _ (by subst hin; simp only [nMfc] at *; omega)]
+  · rw [h2 _ (by rw [hpi]; split at hin' <;> split <;> omega)]
     exact h.frames i hia
-  · have hpos : (s.mfcOutidx + i) % nMfc = inptr + (i - s.nMfcFrame) := by
-      subst hin; simp only [nMfc] at *; omega
+  · have hpos : (s.mfcOutidx + i) % s.nMfcAlloc = inptr + (i - s.nMfcFrame) := by
+      rw [hpi]; split at hin' <;> split <;> omega
     rw [hpos, h1 _ (by omega)]
     congr 2
     have := h.next; omega
 
 theorem rawLoop_spec : ∀ (fuel : Nat) (s : St) (c inptr ncep : Nat) (rs : List FeResp) (more : Bool), MfcInv s c →
-    inptr = (s.mfcOutidx + s.nMfcFrame) % nMfc → ncep = nMfc - s.nMfcFrame → ncep + 1 ≤ fuel →
+    inptr = (s.mfcOutidx + s.nMfcFrame) % s.nMfcAlloc → ncep = s.nMfcAlloc - s.nMfcFrame → ncep + 1 ≤ fuel →
     ∃ mb a, (rawLoop fuel s inptr ncep rs more).1 = { s with mfcBuf := mb, nextId := c + a, nMfcFrame := a } ∧
       MfcInv { s with mfcBuf := mb, nextId := c + a, nMfcFrame := a } c ∧ s.nMfcFrame ≤ a ∧
       a + offered (rawLoop fuel s inptr ncep rs more).2.1 ≤ s.nMfcFrame + offered rs ∧
       (rawLoop fuel s inptr ncep rs more).2.1.length ≤ rs.length ∧
       ((rawLoop fuel s inptr ncep rs more).2.2.2.2.2 = false →
-        (rawLoop fuel s inptr ncep rs more).2.2.2.1 = (s.mfcOutidx + a) % nMfc ∧
-        (rawLoop fuel s inptr ncep rs more).2.2.2.2.1 = nMfc - a ∧
-        (rawLoop fuel s inptr ncep rs more).2.2.2.1 + (rawLoop fuel s inptr ncep rs more).2.2.2.2.1 ≤ nMfc) ∧
+        (rawLoop fuel s inptr ncep rs more).2.2.2.1 = (s.mfcOutidx + a) % s.nMfcAlloc ∧
+        (rawLoop fuel s inptr ncep rs more).2.2.2.2.1 = s.nMfcAlloc - a ∧
+        (rawLoop fuel s inptr ncep rs more).2.2.2.1 + (rawLoop fuel s inptr ncep rs more).2.2.2.2.1 ≤ s.nMfcAlloc) ∧
       ((rawLoop fuel s inptr ncep rs more).2.2.2.2.2 = true → (rawLoop fuel s inptr ncep rs more).2.1.length < rs.length ∨
         (rs = [] ∧ (rawLoop fuel s inptr ncep rs more).2.2.1 = false)) := by
   intro fuel
@@ -1517,23 +1722,21 @@ theorem rawLoop_spec : ∀ (fuel : Nat) (s : St) (c inptr ncep : Nat) (rs : List
   | zero => intro s c inptr ncep rs more _ _ _ hf; omega
   | succ fuel ih =>
     intro s c inptr ncep rs more hm hin hnc hf
-    have hal := hm.alloc
     have hnext := hm.next
     have hcnt := hm.cnt
     have hout := hm.out
-    have hin_lt : inptr < nMfc := by rw [hin]; exact Nat.mod_lt _ (by decide)
+    have hin_lt : inptr < s.nMfcAlloc := by rw [hin]; exact Nat.mod_lt _ (by omega)
     by_cases hwrap : inptr + ncep > s.nMfcAlloc
-    · rw [hal] at hwrap
-      -- one limited call
-      have hlim : inptr + min (popResp rs).1.nvec (nMfc - inptr) ≤ nMfc := by omega
-      have hroom : s.nMfcFrame + min (popResp rs).1.nvec (nMfc - inptr) ≤ nMfc := by omega
-      obtain ⟨mb, e, hm'⟩ := hm.feWrite (min (popResp rs).1.nvec (nMfc - inptr)) inptr hin hlim hroom
-      by_cases hz : min (popResp rs).1.nvec (nMfc - inptr) = 0
+    · -- one limited call
+      have hlim : inptr + min (popResp rs).1.nvec (s.nMfcAlloc - inptr) ≤ s.nMfcAlloc := by omega
+      have hroom : s.nMfcFrame + min (popResp rs).1.nvec (s.nMfcAlloc - inptr) ≤ s.nMfcAlloc := by omega
+      obtain ⟨mb, e, hm'⟩ := hm.feWrite (min (popResp rs).1.nvec (s.nMfcAlloc - inptr)) inptr hin hlim hroom
+      by_cases hz : min (popResp rs).1.nvec (s.nMfcAlloc - inptr) = 0
       · -- goto alldone
         have hR : rawLoop (fuel + 1) s inptr ncep rs more =
             ({ feWrite 0 inptr s with nMfcFrame := (feWrite 0 inptr s).nMfcFrame + 0 }, (popResp rs).2, (popResp rs).1.more,
               inptr, ncep, true) := by
-          simp only [rawLoop, hal, hwrap, if_true, hz]
+          simp only [rawLoop, hwrap, if_true, hz]
         rw [hz] at e hm'
         rw [hR]
         simp only []
@@ -1546,25 +1749,25 @@ theorem rawLoop_spec : ∀ (fuel : Nat) (s : St) (c inptr ncep : Nat) (rs : List
           | nil => right; exact ⟨rfl, rfl⟩
           | cons r rs => left; simp [popResp]
       · -- some frames, loop again
+        have hA : (feWrite (min (popResp rs).1.nvec (s.nMfcAlloc - inptr)) inptr s).nMfcAlloc = s.nMfcAlloc := by
+          obtain ⟨mb0, e0, _⟩ := feWrite_spec (min (popResp rs).1.nvec (s.nMfcAlloc - inptr)) inptr s (by rw [hm.len]; omega)
+          rw [e0]
         have hR : rawLoop (fuel + 1) s inptr ncep rs more =
-            rawLoop fuel { feWrite (min (popResp rs).1.nvec (nMfc - inptr)) inptr s with
-                nMfcFrame := (feWrite (min (popResp rs).1.nvec (nMfc - inptr)) inptr s).nMfcFrame +
-                  min (popResp rs).1.nvec (nMfc - inptr) }
-              ((inptr + min (popResp rs).1.nvec (nMfc - inptr)) % nMfc) (ncep - min (popResp rs).1.nvec (nMfc - inptr))
+            rawLoop fuel { feWrite (min (popResp rs).1.nvec (s.nMfcAlloc - inptr)) inptr s with
+                nMfcFrame := (feWrite (min (popResp rs).1.nvec (s.nMfcAlloc - inptr)) inptr s).nMfcFrame +
+                  min (popResp rs).1.nvec (s.nMfcAlloc - inptr) }
+              ((inptr + min (popResp rs).1.nvec (s.nMfcAlloc - inptr)) % s.nMfcAlloc)
+              (ncep - min (popResp rs).1.nvec (s.nMfcAlloc - inptr))
               (popResp rs).2 (popResp rs).1.more := by
-          simp only [rawLoop, hal, hwrap, if_true, hz, if_false]
-          have : (feWrite (min (popResp rs).1.nvec (nMfc - inptr)) inptr s).nMfcAlloc = nMfc := by
-            obtain ⟨mb0, e0, _⟩ := feWrite_spec (min (popResp rs).1.nvec (nMfc - inptr)) inptr s (by rw [hm.len]; omega)
-            rw [e0]; exact hal
-          simp only [this]
+          simp only [rawLoop, hwrap, if_true, hz, if_false, hA]
         rw [hR, e]
-        obtain ⟨mb2, a2, i1, i2, i3, i4, i5, i6, i7⟩ := ih _ c ((inptr + min (popResp rs).1.nvec (nMfc - inptr)) % nMfc)
-          (ncep - min (popResp rs).1.nvec (nMfc - inptr)) (popResp rs).2 (popResp rs).1.more hm'
-          (by simp only []; subst hin; simp only [nMfc] at *; omega) (by simp only []; omega) (by omega)
+        obtain ⟨mb2, a2, i1, i2, i3, i4, i5, i6, i7⟩ := ih _ c ((inptr + min (popResp rs).1.nvec (s.nMfcAlloc - inptr)) % s.nMfcAlloc)
+          (ncep - min (popResp rs).1.nvec (s.nMfcAlloc - inptr)) (popResp rs).2 (popResp rs).1.more hm'
+          (by simp only []; rw [hin, Nat.mod_add_mod, Nat.add_assoc]) (by simp only []; omega) (by omega)
         simp only [] at i1 i2 i3 i4 i5 i6 i7
         refine ⟨mb2, a2, by rw [i1], i2, by omega, ?_, ?_, ?_, ?_⟩
         · have := offered_pop rs
-          have hmin : min (popResp rs).1.nvec (nMfc - inptr) ≤ (popResp rs).1.nvec := Nat.min_le_left _ _
+          have hmin : min (popResp rs).1.nvec (s.nMfcAlloc - inptr) ≤ (popResp rs).1.nvec := Nat.min_le_left _ _
           omega
         · have := popResp_length rs; omega
         · intro hd
@@ -1576,9 +1779,8 @@ theorem rawLoop_spec : ∀ (fuel : Nat) (s : St) (c inptr ncep : Nat) (rs : List
             left
             have : ((popResp (r :: rs)).2).length < (r :: rs).length := by simp [popResp]
             omega
-    · rw [hal] at hwrap
-      have hR : rawLoop (fuel + 1) s inptr ncep rs more = (s, rs, more, inptr, ncep, false) := by
-        simp only [rawLoop, hal, hwrap, if_false]
+    · have hR : rawLoop (fuel + 1) s inptr ncep rs more = (s, rs, more, inptr, ncep, false) := by
+        simp only [rawLoop, hwrap, if_false]
       rw [hR]
       simp only []
       refine ⟨s.mfcBuf, s.nMfcFrame, ?_, ?_, Nat.le_refl _, Nat.le_refl _, Nat.le_refl _, ?_, by simp⟩
@@ -1586,25 +1788,24 @@ theorem rawLoop_spec : ∀ (fuel : Nat) (s : St) (c inptr ncep : Nat) (rs : List
       · rw [← hnext]; exact hm
       · intro _; exact ⟨hin, hnc, by omega⟩
 
-/-- the front-end part of `acmod_process_raw` on an empty ring: some `a ≤ nMfc` fresh frames, then `acmod_process_mfcbuf` -/
+/-- the front-end part of `acmod_process_raw` on an empty ring: some `a ≤ n_mfc_alloc` fresh frames, then `acmod_process_mfcbuf` -/
 theorem processRaw_fe (fix : Bool) (win : Nat) (skip : Nat → Bool) (s : St) (c : Nat) (rs : List FeResp) (hm : MfcInv s c)
     (h0 : s.nMfcFrame = 0) :
     ∃ mb a rest more, processRaw fix win skip s rs =
         ⟨(processMfcbuf fix win skip { s with mfcBuf := mb, nextId := c + a, nMfcFrame := a }).st, rest, more⟩ ∧
       MfcInv { s with mfcBuf := mb, nextId := c + a, nMfcFrame := a } c ∧ a + offered rest ≤ offered rs ∧
       (rest.length < rs.length ∨ (rs = [] ∧ more = false)) := by
-  have hal := hm.alloc
-  obtain ⟨mb, a, i1, i2, i3, i4, i5, i6, i7⟩ := rawLoop_spec (nMfc - s.nMfcFrame + 1) s c
-    ((s.mfcOutidx + s.nMfcFrame) % nMfc) (nMfc - s.nMfcFrame) rs true hm rfl rfl (Nat.le_refl _)
-  rcases hrl : rawLoop (nMfc - s.nMfcFrame + 1) s ((s.mfcOutidx + s.nMfcFrame) % nMfc) (nMfc - s.nMfcFrame) rs true with
-    ⟨s1, rs1, more1, inptr1, ncep1, done1⟩
+  obtain ⟨mb, a, i1, i2, i3, i4, i5, i6, i7⟩ := rawLoop_spec (s.nMfcAlloc - s.nMfcFrame + 1) s c
+    ((s.mfcOutidx + s.nMfcFrame) % s.nMfcAlloc) (s.nMfcAlloc - s.nMfcFrame) rs true hm rfl rfl (Nat.le_refl _)
+  rcases hrl : rawLoop (s.nMfcAlloc - s.nMfcFrame + 1) s ((s.mfcOutidx + s.nMfcFrame) % s.nMfcAlloc)
+      (s.nMfcAlloc - s.nMfcFrame) rs true with ⟨s1, rs1, more1, inptr1, ncep1, done1⟩
   rw [hrl] at i1 i4 i5 i6 i7
   simp only [] at i1 i4 i5 i6 i7
   cases done1 with
   | true =>
     refine ⟨mb, a, rs1, more1, ?_, i2, by omega, ?_⟩
-    · simp only [processRaw, hal, hrl, if_true]
-      rw [i1]; simp only [hal]
+    · simp only [processRaw, hrl, if_true]
+      rw [i1]
     · rcases i7 rfl with h | h
       · left; exact h
       · right; exact h
@@ -1614,11 +1815,11 @@ theorem processRaw_fe (fix : Bool) (win : Nat) (skip : Nat → Bool) (s : St) (c
     have hcnt := i2.cnt
     simp only [] at hcnt
     obtain ⟨mb2, e2, hm2⟩ := i2.feWrite (min (popResp rs1).1.nvec ncep1) inptr1 (by simp only []; exact j1)
-      (by omega) (by simp only []; omega)
+      (by simp only []; omega) (by simp only []; omega)
     simp only [] at e2 hm2
     refine ⟨mb2, a + min (popResp rs1).1.nvec ncep1, (popResp rs1).2, (popResp rs1).1.more, ?_, ?_, ?_, ?_⟩
-    · simp only [processRaw, hal, hrl, Bool.false_eq_true, if_false]
-      rw [i1, e2, Nat.add_assoc]; simp only [hal]
+    · simp only [processRaw, hrl, Bool.false_eq_true, if_false]
+      rw [i1, e2, Nat.add_assoc]
     · rw [Nat.add_assoc] at hm2; exact hm2
     · have := offered_pop rs1
       have hmin : min (popResp rs1).1.nvec ncep1 ≤ (popResp rs1).1.nvec := Nat.min_le_left _ _
